@@ -598,6 +598,9 @@ func c04Run(c *vk.Ctx) {
 			return
 		}
 	}
+	if !c03TwoListeners(c, r, "C04") {
+		return
+	}
 	c04Process(c, r)
 }
 
@@ -612,6 +615,7 @@ func init() {
 		Timeout:     func(t string) time.Duration { return 25 * time.Minute },
 		Run: func(c *vk.Ctx) {
 			c.Require("stable_phases")
+			c.Require("two_listener_datagrams_intact")
 			c.Require("young_associations_survive_strays_and_oversized_replies")
 			c.Require("expiry_phases")
 			c.Require("unsolicited_delivered_to_owner_only")
